@@ -21,6 +21,9 @@ JAR = "/opt/veriftools/tla/tla2tools.jar:/opt/veriftools/tla/CommunityModules-de
 NCPU = os.cpu_count() or 4
 
 
+ANY_VIOLATION = [False]   # set once a VIOLATION line has been printed in this process
+
+
 class MachineryError(Exception):
     """The check itself could not run (build failure, TLC parse error...)."""
 
@@ -418,6 +421,7 @@ class Check:
         with open(path + ".meta.json", "w") as f:
             json.dump({"property": self.prop, "seed": self.seed, "tier": self.tier, "reason": reason, "meta": meta or {}}, f, indent=1)
         self.violations.append((reason, path))
+        ANY_VIOLATION[0] = True
         log("VIOLATION property=%s replay=%s" % (self.prop, path))
         log("  reason: %s" % reason)
 
